@@ -214,6 +214,10 @@ class World:
     def can_apply(self, step: dict) -> bool:
         return True
 
+    def unjudged(self, step: dict) -> bool:
+        """True when the world only counts the outcome of this step (it then does not judge its duration either)."""
+        return False
+
     def finish(self) -> None:
         pass
 
@@ -445,6 +449,11 @@ def _step_cap(world):
 
 def _apply_bounded(world, step):
     cap = _step_cap(world)
+    if world.unjudged(step):
+        # the outcome of this step is counted, not judged (reading a file a crash or a failed write left torn: garbage
+        # parsed into periods millennia apart makes the reader allocate gigabytes, slowly) - so is the time it takes;
+        # only a generous multiple of the cap still applies, as the backstop against a real hang
+        cap = cap * 20
     try:
         with _alarm(cap, _StepTimeout):
             return world.apply(step)
